@@ -438,7 +438,7 @@ func (m c10) Run(c *core.Ctx) {
 		}
 		run(src, mod0, nil, []string{"fixed"}, false)
 	}
-	nprog := c.Pick(40, 800)
+	nprog := c.Pick(40, 1500)
 	o := gen.Opts{MaxStmts: 14, MaxDepth: 3, ExprDepth: 2, Try: 0.5, Throw: 0.1, Funcs: 0.9, Shadow: 0.2, LogProb: 0.2, Consts: 0.3, Globals: true,
 		DeepRecursion: 10, Faults: 0.004, NoTopReturn: true}
 	for i := 0; i < nprog; i++ {
